@@ -20,7 +20,7 @@ type Case struct {
 }
 
 func genCase(t *rapid.T) Case {
-	g := &yg.G{T: t}
+	g := &yg.G{T: t, BackslashR: !fw.Known("c08.backslash-r-substituted")}
 	s := &yg.Stmt{Kw: []string{"description", "x:ext", "reference", "y:note"}[g.Pick(4, "kw")]}
 	// place the keyword at a generated column: blanks / tabs / a line break before it
 	lead := []string{"", " ", "    ", "\t", "\n", "\n    ", "\n\t\t", "        ", "  \t  ", "/* c */ ", "\r\n   "}[g.Pick(11, "lead")]
